@@ -115,6 +115,7 @@ def run_world(world, tier="quick", timeout=120.0):
         "lib_calls": p0["lib_calls"], "flt_calls": p0["flt_calls"],
         "cells": p0.get("cells", []),
         "raised_in_dispatch": p0.get("raised_in_dispatch", []),
+        "variants": p0.get("variants", []),
         "iso": len(iso_res),
     }
     stats["nontrivial"] = bool(stats["switches_inop"] or sum(st["faults_fired"].values()) or st["mut_ops"])
